@@ -2,16 +2,18 @@
 // point.
 //
 // Histories `bootstrap(empty store); rotate^r` are executed with the repository's real components
-// (rotate.Bootstrap / rotate.Key, memkm or localkm, nonprod signer, gcsca) over a recording
-// storagei.Client that wraps the repository's in-memory storage client or its local-disk client.
-// For every operation the log W of completed object writes is taken; for every order in which the
-// pending certificates could have been uploaded (Finalize ranges over a Go map) and every prefix
-// of the reordered log, the store "state before the operation + prefix" is rebuilt and read back
-// through a fresh gcsca.CertificateAuthority.
+// (rotate.Bootstrap / rotate.Key, memkm or localkm, nonprod signer, gcsca) over the package's own
+// recording storagei.Client (store_test.go) that wraps the repository's in-memory storage client or
+// its local-disk client. For every operation the log W of completed object writes is taken together
+// with the REAL content of the base store after each of them; for every order in which the pending
+// certificates could have been uploaded (Finalize ranges over a Go map) and every prefix of the
+// reordered log, the store "state before the operation + prefix" is read back through a fresh
+// gcsca.CertificateAuthority.
 package c11
 
 import (
 	"context"
+	"crypto/sha256"
 	"crypto/x509"
 	"encoding/pem"
 	"fmt"
@@ -24,7 +26,6 @@ import (
 	"github.com/google/gce-tcb-verifier/keys"
 	cpb "github.com/google/gce-tcb-verifier/proto/certificates"
 	"github.com/google/gce-tcb-verifier/sign/gcsca"
-	sops "github.com/google/gce-tcb-verifier/sign/ops"
 	"github.com/google/gce-tcb-verifier/testing/nonprod/localca"
 	"google.golang.org/protobuf/encoding/prototext"
 	_ "pgregory.net/rapid" // the driver passes -rapid.seed to every check binary
@@ -43,6 +44,7 @@ type opSpec struct {
 	Rot       rotsim.RotateParams    `json:"rot"`
 	Boot      rotsim.BootstrapParams `json:"boot"`
 	Overwrite bool                   `json:"overwrite"`
+	KeepGoing bool                   `json:"keep_going"`
 	Tag       string                 `json:"tag"`
 }
 
@@ -53,10 +55,15 @@ type history struct {
 	CertDir  string   `json:"cert_dir"`
 	RootPath string   `json:"root_path"`
 	Ops      []opSpec `json:"ops"`
-	// FailOp/FailWrite (write-error sub-check only): operation FailOp's FailWrite-th object write
-	// fails; the same authority instance then performs Ops[FailOp+1].
-	FailOp    int `json:"fail_op"`
-	FailWrite int `json:"fail_write"`
+	// Faults: which fault kinds the fault sub-check injects into this history: 0 = the failing Close
+	// that leaves no object; 1 = also the failing Close after the object was committed; 2 = every
+	// kind.
+	Faults int `json:"faults"`
+	// FailOp/Fault (fault and crash sub-checks only): operation FailOp runs with Fault injected;
+	// Ops[FailOp+1] then runs on the same authority instance (fault) or in a fresh process over what
+	// the dead one left behind (crash).
+	FailOp int   `json:"fail_op"`
+	Fault  fault `json:"fault"`
 }
 
 func (h *history) opts() rotsim.Options {
@@ -85,17 +92,22 @@ func runOp(ctx context.Context, o opSpec) error {
 	panic("harness: unknown op kind " + o.Kind)
 }
 
-// guarded runs f and turns a panic of the code under test into a value.
-func guarded(f func() error) (err error, pan any) {
+// guarded runs f and turns a panic of the code under test into a value; a simulated process
+// death is reported as crashed.
+func guarded(f func() error) (err error, pan any, crashed bool) {
 	defer func() {
 		if r := recover(); r != nil {
+			if _, ok := r.(crashSignal); ok {
+				crashed = true
+				return
+			}
 			if s, ok := r.(string); ok && strings.HasPrefix(s, "harness:") {
 				panic(r)
 			}
 			pan = r
 		}
 	}()
-	return f(), nil
+	return f(), nil, false
 }
 
 // ---------------------------------------------------------------------------------------------
@@ -108,8 +120,12 @@ type verdict struct {
 
 type stateInfo struct {
 	hasManifest bool
-	entries     int
+	// listable: the harness could enumerate the manifest's entries (the stored object parses as
+	// the documented text proto and agrees with what the authority reports).
+	listable    bool
+	listed      map[string]string // key version -> object
 	primary     string
+	primaryPath string
 }
 
 func rootPathOf(h *history) string {
@@ -119,10 +135,41 @@ func rootPathOf(h *history) string {
 	return h.RootPath
 }
 
-// judgeStore reads the given bucket content back through a fresh gcsca.CertificateAuthority over
-// a fresh storage client and decides the state clauses of the property.
+type judged struct {
+	v    *verdict
+	info stateInfo
+}
+
+var judgeMemo = map[[sha256.Size]byte]judged{}
+
+// judgeStore decides the state clauses for one bucket content. The verdict is a function of the
+// content and of the authority's configuration only, and the fault sub-checks reach the same
+// content many times, so verdicts are remembered.
 func judgeStore(h *history, objects map[string][]byte) (*verdict, stateInfo) {
-	var info stateInfo
+	hs := sha256.New()
+	fmt.Fprintf(hs, "%q %q %q\n", h.Store, h.CertDir, h.RootPath)
+	for _, n := range objectNames(objects) {
+		fmt.Fprintf(hs, "%q %d\n", n, len(objects[n]))
+		hs.Write(objects[n])
+	}
+	var key [sha256.Size]byte
+	copy(key[:], hs.Sum(nil))
+	j, ok := judgeMemo[key]
+	if !ok {
+		j.v, j.info = judgeStoreFresh(h, objects)
+		judgeMemo[key] = j
+	}
+	if j.v != nil {
+		c := *j.v
+		return &c, j.info
+	}
+	return nil, j.info
+}
+
+// judgeStoreFresh reads the given bucket content back through a fresh gcsca.CertificateAuthority
+// over a fresh storage client and decides the state clauses of the property.
+func judgeStoreFresh(h *history, objects map[string][]byte) (*verdict, stateInfo) {
+	info := stateInfo{listed: map[string]string{}}
 	d := rotsim.Empty()
 	d.Objects = objects
 	w, err := rotsim.Build(d, h.opts())
@@ -136,7 +183,7 @@ func judgeStore(h *history, objects map[string][]byte) (*verdict, stateInfo) {
 		return &verdict{Key: key, Msg: fmt.Sprintf(f, a...)}, info
 	}
 
-	// (a) the manifest parses, for the authority and for an independent reader
+	// (a) the authority can read its manifest
 	primary, err := ca.PrimarySigningKeyVersion(ctx)
 	if err != nil {
 		return bad("C11/manifest-unreadable", "fresh authority cannot read its manifest: %v", err)
@@ -145,31 +192,38 @@ func judgeStore(h *history, objects map[string][]byte) (*verdict, stateInfo) {
 	if err != nil {
 		return bad("C11/manifest-unreadable", "fresh authority cannot read its manifest: %v", err)
 	}
+	info.primary = primary
+	// The entries are enumerated by an independent reader of the documented format (text proto at
+	// gcsca.ManifestObjectName). If that reader disagrees with the authority the entries cannot be
+	// listed from outside: clause (b) is then inconclusive, not violated.
 	man := &cpb.GCECertificateManifest{}
+	info.listable = true
 	if raw, ok := objects[gcsca.ManifestObjectName]; ok {
 		info.hasManifest = true
 		if err := prototext.Unmarshal(raw, man); err != nil {
-			return bad("C11/manifest-unreadable", "stored manifest does not parse: %v", err)
+			info.listable = false
 		}
 	}
 	if man.GetPrimarySigningKeyVersionName() != primary || man.GetPrimaryRootKeyVersionName() != rootName {
-		panic(fmt.Sprintf("harness: authority reports primary %q root %q, stored manifest says %q %q", primary, rootName, man.GetPrimarySigningKeyVersionName(), man.GetPrimaryRootKeyVersionName()))
+		info.listable = false
 	}
-	info.primary = primary
-	info.entries = len(man.GetEntries())
 
 	// (b) every listed key version resolves to a stored, parseable certificate
-	for _, e := range man.GetEntries() {
-		raw, ok := objects[e.GetObjectPath()]
-		if !ok {
-			return bad("C11/manifest-entry-without-object", "manifest lists key version %q -> object %q, which is not in the bucket", e.GetKeyVersionName(), e.GetObjectPath())
+	if info.listable {
+		for _, e := range man.GetEntries() {
+			info.listed[e.GetKeyVersionName()] = e.GetObjectPath()
+			raw, ok := objects[e.GetObjectPath()]
+			if !ok {
+				return bad("C11/manifest-entry-without-object", "manifest lists key version %q -> object %q, which is not in the bucket", e.GetKeyVersionName(), e.GetObjectPath())
+			}
+			if _, err := x509.ParseCertificate(raw); err != nil {
+				return bad("C11/manifest-entry-unparseable", "object %q of key version %q does not parse as a certificate: %v", e.GetObjectPath(), e.GetKeyVersionName(), err)
+			}
+			if _, err := ca.Certificate(ctx, e.GetKeyVersionName()); err != nil {
+				return bad("C11/manifest-entry-unresolvable", "authority cannot produce the certificate of listed key version %q: %v", e.GetKeyVersionName(), err)
+			}
 		}
-		if _, err := x509.ParseCertificate(raw); err != nil {
-			return bad("C11/manifest-entry-unparseable", "object %q of key version %q does not parse as a certificate: %v", e.GetObjectPath(), e.GetKeyVersionName(), err)
-		}
-		if _, err := ca.Certificate(ctx, e.GetKeyVersionName()); err != nil {
-			return bad("C11/manifest-entry-unresolvable", "authority cannot produce the certificate of listed key version %q: %v", e.GetKeyVersionName(), err)
-		}
+		info.primaryPath = info.listed[primary]
 	}
 	if primary == "" {
 		return nil, info
@@ -200,24 +254,25 @@ func judgeStore(h *history, objects map[string][]byte) (*verdict, stateInfo) {
 		return bad("C11/primary-certificate-not-under-root", "certificate of primary signing key %q does not verify under the stored root certificate: %v", primary, err)
 	}
 
-	// (d) the start-up self check (localca.checkCerts) passes
-	if rootName == "" {
-		return bad("C11/startup-check-fails", "primary signing key %q is recorded without a primary root key version", primary)
-	}
-	if _, err := sops.IssuerCertFromBundle(ctx, ca, rootName); err != nil {
-		return bad("C11/startup-check-fails", "start-up check: issuer certificate: %v", err)
-	}
-	if h.Store == "local" {
-		// the real start-up check wants the local-disk client itself, not the recorder around it
-		direct := &gcsca.CertificateAuthority{RootPath: ca.RootPath, PrivateBucket: ca.PrivateBucket, SigningCertDirInGCS: ca.SigningCertDirInGCS, Storage: w.Store.Base}
-		kc, _ := keys.FromContext(ctx)
-		kc.CA = nil
-		if _, err := (&localca.T{CA: direct}).InitContext(ctx); err != nil {
-			return bad("C11/startup-check-fails", "localca.InitContext refuses the store: %v", err)
+	// (d) the repository's own start-up self check accepts the store: the real localca.T.InitContext
+	// (checkCerts) over a local-disk client holding exactly this content. Nothing is re-implemented
+	// here, so the clause demands what the repository's check demands and nothing else.
+	lw := w
+	if h.Store != "local" {
+		o := h.opts()
+		o.StoreBase = "local"
+		lw, err = rotsim.Build(d, o)
+		if err != nil {
+			panic("harness: cannot build world: " + err.Error())
 		}
-		if kc.CA != direct {
-			panic("harness: localca.InitContext did not install the authority")
-		}
+		defer lw.Close()
+	}
+	direct := &gcsca.CertificateAuthority{RootPath: ca.RootPath, PrivateBucket: ca.PrivateBucket, SigningCertDirInGCS: ca.SigningCertDirInGCS, Storage: lw.Store.Base}
+	lctx := lw.Context(false)
+	kc, _ := keys.FromContext(lctx)
+	kc.CA = nil
+	if _, err := (&localca.T{CA: direct}).InitContext(lctx); err != nil {
+		return bad("C11/startup-check-fails", "localca.InitContext refuses the store: %v", err)
 	}
 	return nil, info
 }
@@ -240,14 +295,34 @@ func logString(h *history, ws []rotsim.Write) string {
 	return "[" + strings.Join(s, ", ") + "]"
 }
 
-// judgeOrder decides the ordering clause on one operation's write log.
-func judgeOrder(h *history, ws []rotsim.Write) *verdict {
+// judgeAhead decides the ordering clause on one operation's observed write log, as the statement
+// words it: no manifest write is ahead of a certificate it references. For every manifest write the
+// certificate objects of its entries, and the root certificate object if it records a primary
+// signing key, must be in the store when the manifest write completes. (Writes AFTER a manifest
+// write, and several manifest writes, are fine as long as this holds; every prefix is judged by
+// judgeStore anyway. The clause is stated separately because it names the cause.)
+func judgeAhead(h *history, pre map[string][]byte, ws []rotsim.Write) *verdict {
 	for i, w := range ws {
 		if w.Bucket != rotsim.Bucket {
 			panic("harness: write to foreign bucket " + w.Bucket)
 		}
-		if kindOf(h, w.Object) == "manifest" && i != len(ws)-1 {
-			return &verdict{Key: "C11/manifest-not-written-last", Msg: fmt.Sprintf("the manifest is write %d of %d in the operation's log %s", i+1, len(ws), logString(h, ws))}
+		if kindOf(h, w.Object) != "manifest" {
+			continue
+		}
+		man := &cpb.GCECertificateManifest{}
+		if err := prototext.Unmarshal(w.Data, man); err != nil {
+			continue // not the documented format (or broken): the state clauses decide
+		}
+		have := rotsim.Apply(pre, ws[:i])
+		for _, e := range man.GetEntries() {
+			if _, ok := have[e.GetObjectPath()]; !ok {
+				return &verdict{Key: "C11/manifest-written-ahead-of-certificate", Msg: fmt.Sprintf("write %d of %d is a manifest listing key version %q -> object %q, which is not stored at that point; log %s", i+1, len(ws), e.GetKeyVersionName(), e.GetObjectPath(), logString(h, ws))}
+			}
+		}
+		if man.GetPrimarySigningKeyVersionName() != "" {
+			if _, ok := have[rootPathOf(h)]; !ok {
+				return &verdict{Key: "C11/manifest-written-ahead-of-root-certificate", Msg: fmt.Sprintf("write %d of %d is a manifest recording primary signing key %q while the root certificate object %q is not stored at that point; log %s", i+1, len(ws), man.GetPrimarySigningKeyVersionName(), rootPathOf(h), logString(h, ws))}
+			}
 		}
 	}
 	return nil
@@ -276,88 +351,191 @@ func permutations(n int) [][]int {
 	return out
 }
 
-func objectNames(objects map[string][]byte) string {
+// order is one order in which the operation's writes may have completed.
+type order struct {
+	label    string
+	ws       []rotsim.Write
+	observed bool
+}
+
+const maxRun, maxOrders = 4, 48
+
+// orders enumerates the completion orders that the code does not fix: the certificate uploads of
+// one Finalize are issued while ranging over a Go map, so every CONTIGUOUS run of certificate
+// uploads (no root or manifest write in between) is permuted. Writes separated by a root or manifest
+// write keep their relative order: that order is the code's choice. Labels are relative to the run's
+// uploads sorted by object name, so that the enumeration is the same in every run.
+func orders(h *history, ws []rotsim.Write) (out []order, capped bool) {
+	var runs [][]int
+	for i := 0; i < len(ws); {
+		if kindOf(h, ws[i].Object) != "upload" {
+			i++
+			continue
+		}
+		j := i
+		for j < len(ws) && kindOf(h, ws[j].Object) == "upload" {
+			j++
+		}
+		run := make([]int, 0, j-i)
+		for k := i; k < j; k++ {
+			run = append(run, k)
+		}
+		runs = append(runs, run)
+		i = j
+	}
+	total := 1
+	for _, r := range runs {
+		if len(r) > maxRun {
+			capped = true
+		}
+		for k := 2; k <= len(r); k++ {
+			total *= k
+		}
+	}
+	if capped || total > maxOrders {
+		return []order{{label: "observed", ws: ws, observed: true}}, true
+	}
+	out = []order{{label: "", ws: append([]rotsim.Write(nil), ws...)}}
+	for _, run := range runs {
+		sorted := append([]int(nil), run...)
+		sort.Slice(sorted, func(a, b int) bool { return ws[sorted[a]].Object < ws[sorted[b]].Object })
+		var next []order
+		for _, o := range out {
+			for _, perm := range permutations(len(run)) {
+				re := append([]rotsim.Write(nil), o.ws...)
+				for j, src := range perm {
+					re[run[j]] = ws[sorted[src]]
+				}
+				next = append(next, order{label: o.label + fmt.Sprint(perm), ws: re})
+			}
+		}
+		out = next
+	}
+	seen := false
+	for i := range out {
+		same := true
+		for k := range ws {
+			// (two writes of one object inside a run would make orders coincide; the first match counts)
+			if out[i].ws[k].Object != ws[k].Object || string(out[i].ws[k].Data) != string(ws[k].Data) {
+				same = false
+				break
+			}
+		}
+		if same && !seen {
+			out[i].observed, seen = true, true
+		}
+	}
+	if !seen {
+		panic("harness: the observed order is not among the enumerated orders")
+	}
+	return out, false
+}
+
+func objectNames(objects map[string][]byte) []string {
 	var names []string
 	for k := range objects {
 		names = append(names, k)
 	}
 	sort.Strings(names)
-	return strings.Join(names, ",")
+	return names
 }
 
 type caseSample struct {
 	History string   `json:"history"`
 	Op      string   `json:"op"`
 	Log     string   `json:"log"`
-	Order   []int    `json:"upload_order"`
+	Order   string   `json:"upload_order"`
 	K       int      `json:"prefix"`
 	Objects []string `json:"objects"`
 	Primary string   `json:"primary"`
+	Real    bool     `json:"real_store_content"`
 }
 
-// checkOp enumerates upload orders x prefixes of one operation's write log.
-// It returns the first violated clause.
-func checkOp(name string, h *history, opIdx int, opTag string, opErr error, pre map[string][]byte, ws []rotsim.Write) *verdict {
-	ctxt := func(v *verdict, order []int, k int) *verdict {
-		v.Msg += fmt.Sprintf(" | history: %s | operation %d (%s, returned %v) | write log %s | upload order %v | prefix %d", h, opIdx, opTag, opErr, logString(h, ws), order, k)
+// checkOp judges one operation: the ordering clause on its observed log, then every completion
+// order x every prefix. snaps, if given, holds the real content of the base store after each write
+// of the observed log; the observed order is judged on that content (and on the reconstruction as
+// well if the two differ). It returns the first violated clause.
+func checkOp(name string, h *history, opIdx int, opTag, kind string, opErr error, pre map[string][]byte, ws []rotsim.Write, snaps []map[string][]byte) *verdict {
+	ctxt := func(v *verdict, order string, k int) *verdict {
+		v.Msg += fmt.Sprintf(" | history: %s | operation %d (%s, returned %v) | write log %s | upload order %s | prefix %d", h, opIdx, opTag, opErr, logString(h, ws), order, k)
 		return v
 	}
 	if name == "" {
 		return nil
 	}
-	if v := judgeOrder(h, ws); v != nil {
-		return ctxt(v, nil, -1)
+	if snaps != nil && len(snaps) != len(ws) {
+		panic("harness: snapshots do not match the write log")
 	}
-	var up []int
-	for i, w := range ws {
-		if kindOf(h, w.Object) == "upload" {
-			up = append(up, i)
-		}
+	if v := judgeAhead(h, pre, ws); v != nil {
+		return ctxt(v, "observed", -1)
 	}
-	if len(up) > 5 {
-		panic("harness: more than 5 uploads in one operation")
+	ords, capped := orders(h, ws)
+	if capped {
+		ev.Class(name, "inconclusive: too many uploads in one run to permute, observed order only")
 	}
-	// The order the code happened to use is whatever the map iteration gave; orders are named
-	// relative to the uploads sorted by object name so that the enumeration is the same in every run.
-	sorted := append([]int(nil), up...)
-	sort.Slice(sorted, func(a, b int) bool { return ws[sorted[a]].Object < ws[sorted[b]].Object })
-	for pi, perm := range permutations(len(up)) {
-		re := append([]rotsim.Write(nil), ws...)
-		for j, src := range perm {
-			re[up[j]] = ws[sorted[src]]
-		}
+	for _, o := range ords {
 		lo, hi := 1, len(ws)-1
-		if pi == 0 {
+		if o.observed {
 			lo, hi = 0, len(ws) // the observed order also covers the empty and the full log
 		}
 		for k := lo; k <= hi; k++ {
-			objects := rotsim.Apply(pre, re[:k])
+			objects := rotsim.Apply(pre, o.ws[:k])
+			real := false
+			if o.observed && snaps != nil && k > 0 {
+				if !sameObjects(snaps[k-1], objects) {
+					// the storage client left something else behind than the writes it completed:
+					// the truth is what is in the store
+					ev.Class(name, "real store content differs from the completed writes")
+					objects = snaps[k-1]
+				}
+				real = true
+			}
 			v, info := judgeStore(h, objects)
 			if v != nil {
-				return ctxt(v, perm, k)
-			}
-			kind := strings.SplitN(opTag, " ", 2)[0]
-			if i := strings.Index(opTag, " THEN "); i >= 0 {
-				kind = "after-failed-" + strings.SplitN(opTag, "!", 2)[0] + ":" + strings.SplitN(opTag[i+6:], " ", 2)[0]
+				return ctxt(v, o.label, k)
 			}
 			cls := fmt.Sprintf("%s k=%d/%d", kind, k, len(ws))
 			switch {
 			case !info.hasManifest:
 				cls += " no-manifest"
+			case !info.listable:
+				cls += " inconclusive: manifest entries not listable"
 			case info.primary == "":
 				cls += " no-primary"
 			default:
 				cls += " primary-recorded"
 			}
-			proper := k > 0 && k < len(ws)
-			canon := fmt.Sprintf("%s|%d|%s|%v|%d|%s", h, opIdx, opTag, perm, k, objectNames(objects))
-			ev.Case(name, proper, canon, cls, func() any {
-				var objs []string
-				for o := range objects {
-					objs = append(objs, o)
+			// which of the writes in the prefix replaced an object that this state's manifest lists
+			replaced, replacedPrimary := false, false
+			for _, w := range o.ws[:k] {
+				if _, existed := pre[w.Object]; !existed || kindOf(h, w.Object) != "upload" {
+					continue
 				}
-				sort.Strings(objs)
-				return caseSample{History: h.String(), Op: opTag, Log: logString(h, ws), Order: perm, K: k, Objects: objs, Primary: info.primary}
+				for _, p := range info.listed {
+					if p == w.Object {
+						replaced = true
+					}
+				}
+				if info.primaryPath == w.Object {
+					replacedPrimary = true
+				}
+			}
+			if replacedPrimary {
+				ev.Class(name, "prefix replaced the certificate object of the recorded primary")
+			} else if replaced {
+				ev.Class(name, "prefix replaced a listed (non-primary) certificate object")
+			}
+			// non-trivial: a proper prefix whose state has manifest entries, i.e. clause (b) and,
+			// with a primary, (c) and (d) had something to judge
+			nontrivial := k > 0 && k < len(ws) && info.listable && len(info.listed) > 0
+			label := o.label
+			if k == 0 || k == len(ws) {
+				label = "observed"
+			}
+			names := objectNames(objects)
+			canon := fmt.Sprintf("%s|%d|%s|%s|%d|%s", h, opIdx, opTag, label, k, strings.Join(names, ","))
+			ev.Case(name, nontrivial, canon, cls, func() any {
+				return caseSample{History: h.String(), Op: opTag, Log: logString(h, ws), Order: label, K: k, Objects: names, Primary: info.primary, Real: real}
 			})
 		}
 	}
@@ -368,108 +546,150 @@ func checkOp(name string, h *history, opIdx int, opTag string, opErr error, pre 
 // Running a history
 
 type opResult struct {
-	pre map[string][]byte
-	ws  []rotsim.Write
-	err error
+	before *rotsim.Durable // durable state the operation started from
+	pre    map[string][]byte
+	ws     []rotsim.Write
+	err    error
+	// storage calls of the fault-free run (the fault sub-check enumerates their indices)
+	attempts, exists, readers int
 }
 
 // runHistory executes the fault-free history, a fresh process (fresh components) per operation as
 // successive command invocations would, and checks every operation. It returns the per-operation
-// logs for the write-error sub-check.
+// logs for the fault sub-checks.
 func runHistory(name string, h *history) (*verdict, []opResult) {
+	if name == "" {
+		if res, ok := freeRuns[h.Name]; ok && h.Name != "" {
+			return nil, res
+		}
+	}
 	d := rotsim.Empty()
 	var res []opResult
 	for i, o := range h.Ops {
-		w, err := rotsim.Build(d, h.opts())
-		if err != nil {
-			panic("harness: " + err.Error())
-		}
-		opErr, pan := guarded(func() error { return runOp(w.Context(o.Overwrite), o) })
+		w := build(d, h)
+		opErr, pan, _ := guarded(func() error { return runOp(w.context(o), o) })
 		if pan != nil {
 			w.Close()
 			return &verdict{Key: "C11/panic", Msg: fmt.Sprintf("operation %d (%s) of %s panicked: %v", i, o.Tag, h, pan)}, res
 		}
-		ws := append([]rotsim.Write(nil), w.Store.Log...)
-		pre := w.PreObjects()
-		nd, err := w.Durable()
+		ws := append([]rotsim.Write(nil), w.fs.Log...)
+		snaps := w.fs.Snaps
+		nd := w.durable()
+		r := opResult{before: d, pre: w.pre, ws: ws, err: opErr, attempts: w.fs.Attempts, exists: w.fs.ExistsCalls, readers: w.fs.ReaderCalls}
 		w.Close()
-		if err != nil {
-			panic("harness: " + err.Error())
-		}
-		res = append(res, opResult{pre: pre, ws: ws, err: opErr})
-		if v := checkOp(name, h, i, o.Tag, opErr, pre, ws); v != nil {
+		res = append(res, r)
+		if v := checkOp(name, h, i, o.Tag, o.Kind, opErr, r.pre, ws, snaps); v != nil {
 			return v, res
 		}
+		if name != "" {
+			out := "succeeds"
+			if opErr != nil {
+				out = "is refused"
+			}
+			ev.Class(name, fmt.Sprintf("fault-free %s %s with %d object writes", o.Kind, out, len(ws)))
+		}
 		d = nd
+	}
+	if h.Name != "" {
+		freeRuns[h.Name] = res
 	}
 	return nil, res
 }
 
-// runWriteError replays h up to FailOp, lets FailOp's FailWrite-th write fail, and lets the SAME
-// authority instance (manifest cache retained) perform the following operation; every prefix of
-// that operation's writes is judged like any other.
-func runWriteError(name string, h *history) *verdict {
-	d := rotsim.Empty()
-	for i := 0; i < h.FailOp; i++ {
-		w, err := rotsim.Build(d, h.opts())
-		if err != nil {
-			panic("harness: " + err.Error())
+// freeRuns remembers the fault-free run of every enumerated history (key generation dominates the
+// cost of an operation; the fault sub-checks only need the logs and the durable states).
+var freeRuns = map[string][]opResult{}
+
+// runFault replays h up to FailOp (or starts from `from`, the durable state before FailOp), runs
+// FailOp with h.Fault injected and judges what it left behind; then Ops[FailOp+1], if any, runs
+//   - after a storage error: on the SAME authority instance (manifest cache retained, as in a
+//     process that goes on after the error),
+//   - after a crash: in a fresh process over what the dead one left behind (keys and store),
+//
+// and every order x prefix of its writes is judged like any other operation's.
+func runFault(name string, h *history, from *rotsim.Durable) *verdict {
+	d := from
+	if d == nil {
+		d = rotsim.Empty()
+		for i := 0; i < h.FailOp; i++ {
+			w := build(d, h)
+			o := h.Ops[i]
+			if _, pan, _ := guarded(func() error { return runOp(w.context(o), o) }); pan != nil {
+				panic(fmt.Sprintf("harness: panic in prefix of fault history: %v", pan))
+			}
+			nd := w.durable()
+			w.Close()
+			d = nd
 		}
-		o := h.Ops[i]
-		if _, pan := guarded(func() error { return runOp(w.Context(o.Overwrite), o) }); pan != nil {
-			panic(fmt.Sprintf("harness: panic in prefix of write-error history: %v", pan))
-		}
-		nd, err := w.Durable()
-		w.Close()
-		if err != nil {
-			panic("harness: " + err.Error())
-		}
-		d = nd
 	}
-	w, err := rotsim.Build(d, h.opts())
-	if err != nil {
-		panic("harness: " + err.Error())
-	}
-	defer w.Close()
+	w := build(d, h)
+	defer func() { w.Close() }()
 	fo := h.Ops[h.FailOp]
-	w.Store.FailWrite = h.FailWrite
-	failErr, pan := guarded(func() error { return runOp(w.Context(fo.Overwrite), fo) })
+	w.fs.Fault = h.Fault
+	failErr, pan, crashed := guarded(func() error { return runOp(w.context(fo), fo) })
 	if pan != nil {
-		return &verdict{Key: "C11/panic", Msg: fmt.Sprintf("operation %d (%s) of %s panicked when its write %d failed: %v", h.FailOp, fo.Tag, h, h.FailWrite, pan)}
+		return &verdict{Key: "C11/panic", Msg: fmt.Sprintf("operation %d (%s) of %s panicked with %s: %v", h.FailOp, fo.Tag, h, h.Fault, pan)}
 	}
-	w.Store.FailWrite = -1
-	mid := len(w.Store.Log)
-	tag := fmt.Sprintf("%s!w%d", fo.Tag, h.FailWrite)
-	// what the failed operation left behind (a prefix of its fault-free log, judged again because
-	// the failing write's error path is code of its own)
-	if v := checkOp(name, h, h.FailOp, tag, failErr, w.PreObjects(), w.Store.Log[:mid]); v != nil {
+	if !w.fs.Fired {
+		ev.Class(name, "inconclusive: "+h.Fault.Kind+" not reached in "+fo.Kind)
+		return nil
+	}
+	if h.Fault.Kind == fCrash && !crashed {
+		// the crash point was reached on another goroutine than the operation's (concurrent uploads):
+		// the process cannot be stopped there from inside; not judged as a crash
+		ev.Class(name, "inconclusive: crash point reached off the operation's goroutine")
+		return nil
+	}
+	w.fs.Fault = fault{Index: -1}
+	mid := len(w.fs.Log)
+	tag := fmt.Sprintf("%s!%s", fo.Tag, h.Fault)
+	outcome := "returns an error"
+	switch {
+	case crashed:
+		outcome = "dies"
+	case failErr == nil:
+		outcome = "returns nil"
+	}
+	ev.Class(name, fmt.Sprintf("%s in %s: operation %s", h.Fault.Kind, fo.Kind, outcome))
+	// what the faulted operation left behind (the error path is code of its own)
+	if v := checkOp(name, h, h.FailOp, tag, fo.Kind+" with "+h.Fault.Kind, failErr, w.pre, w.fs.Log[:mid], w.fs.Snaps[:mid]); v != nil {
 		return v
 	}
 	if h.FailOp+1 >= len(h.Ops) {
 		return nil
 	}
 	no := h.Ops[h.FailOp+1]
-	pre := rotsim.Apply(w.PreObjects(), w.Store.Log[:mid])
-	nextErr, pan := guarded(func() error { return runOp(w.Context(no.Overwrite), no) })
+	how := "same instance"
+	if crashed {
+		nd := w.durable()
+		w.Close()
+		w = build(nd, h)
+		mid = 0
+		how = "fresh process"
+	}
+	pre := w.fs.content()
+	nextErr, pan, _ := guarded(func() error { return runOp(w.context(no), no) })
 	if pan != nil {
-		return &verdict{Key: "C11/panic", Msg: fmt.Sprintf("operation %s of %s panicked on the instance that had seen %s fail: %v", no.Tag, h, tag, pan)}
+		return &verdict{Key: "C11/panic", Msg: fmt.Sprintf("operation %s of %s panicked (%s) after %s: %v", no.Tag, h, how, tag, pan)}
 	}
-	ws := append([]rotsim.Write(nil), w.Store.Log[mid:]...)
-	cls := "after-failed-" + fo.Kind + ": next "
+	ws := append([]rotsim.Write(nil), w.fs.Log[mid:]...)
+	out := "succeeds"
 	if nextErr != nil {
-		cls += "fails"
-	} else {
-		cls += "succeeds"
+		out = "is refused"
 	}
-	ev.Class(name, cls)
-	return checkOp(name, h, h.FailOp+1, tag+" THEN "+no.Tag, nextErr, pre, ws)
+	ev.Class(name, fmt.Sprintf("after %s in %s: %s %s with %d object writes", h.Fault.Kind, fo.Kind, no.Tag, out, len(ws)))
+	return checkOp(name, h, h.FailOp+1, tag+" THEN "+no.Tag, "after "+h.Fault.Kind+" in "+fo.Kind+": "+no.Kind, nextErr, pre, ws, w.fs.Snaps[mid:])
 }
 
 // ---------------------------------------------------------------------------------------------
 // Case enumeration
 
-func bootOp() opSpec {
-	return opSpec{Kind: "bootstrap", Boot: rotsim.DefaultBootstrap, Tag: "bootstrap"}
+func bootOp(kg bool) opSpec {
+	o := opSpec{Kind: "bootstrap", Boot: rotsim.DefaultBootstrap, Tag: "bootstrap"}
+	if kg {
+		o.KeepGoing, o.Tag = true, "bootstrap+keep_going"
+	}
+	return o
 }
 
 type rotChoice struct {
@@ -477,6 +697,7 @@ type rotChoice struct {
 	cn        string
 	serial    int64
 	overwrite bool
+	keepGoing bool
 }
 
 // rotation flag variations: default-next serial, another common name, an explicit serial override,
@@ -490,14 +711,23 @@ var rotChoices = []rotChoice{
 	{tag: "serial=2", serial: 2},
 }
 
+// the same with --keep_going: a colliding override is then not refused, the existing object is
+// kept and listed for the new key version.
+var kgChoices = []rotChoice{
+	{tag: "default+keep_going", keepGoing: true},
+	{tag: "serial=2+keep_going", serial: 2, keepGoing: true},
+	{tag: "serial=2+overwrite+keep_going", serial: 2, overwrite: true, keepGoing: true},
+	{tag: "default"},
+}
+
 func rotOp(c rotChoice) opSpec {
-	return opSpec{Kind: "rotate", Rot: rotsim.RotateParams{CN: c.cn, Serial: c.serial}, Overwrite: c.overwrite, Tag: "rotate " + c.tag}
+	return opSpec{Kind: "rotate", Rot: rotsim.RotateParams{CN: c.cn, Serial: c.serial}, Overwrite: c.overwrite, KeepGoing: c.keepGoing, Tag: "rotate " + c.tag}
 }
 
 func histories() []*history {
 	var hs []*history
-	add := func(km, store, certDir, rootPath string, choices []rotChoice) {
-		h := &history{KM: km, Store: store, CertDir: certDir, RootPath: rootPath, Ops: []opSpec{bootOp()}}
+	add := func(km, store, certDir, rootPath string, kgBoot bool, faults int, choices ...rotChoice) {
+		h := &history{KM: km, Store: store, CertDir: certDir, RootPath: rootPath, Faults: faults, Ops: []opSpec{bootOp(kgBoot)}}
 		for _, c := range choices {
 			h.Ops = append(h.Ops, rotOp(c))
 		}
@@ -507,11 +737,19 @@ func histories() []*history {
 	def := rotChoices[0]
 	if ev.Tier() != "thorough" {
 		// r <= 2: the history of length 2 contains those of length 0 and 1 as prefixes
-		for _, store := range []string{"mock", "local"} {
-			add("memkm", store, "certs", "", []rotChoice{def, def})
-		}
-		// two flag variations already in the quick tier
-		add("localkm", "mock", "signer_certs/", "GCE-cc-tcb-root.crt", []rotChoice{rotChoices[1], rotChoices[3]})
+		add("memkm", "mock", "certs", "", false, 2, def, def)
+		add("memkm", "local", "certs", "", false, 1, def, def)
+		// flag variations already in the quick tier: another common name, then a colliding override
+		// with --overwrite that replaces a listed, non-primary certificate object
+		add("localkm", "mock", "signer_certs/", "GCE-cc-tcb-root.crt", false, 0, rotChoices[1], rotChoices[3])
+		// on the local-disk client: a colliding override with --overwrite that replaces the object of
+		// the CURRENT primary, then an explicit fresh serial
+		add("memkm", "local", "signer_certs/", "", false, 0, rotChoices[3], rotChoices[2])
+		// localkm on the local-disk client (the pairing localca is made for), with a refused rotation
+		add("localkm", "local", "certs", "GCE-cc-tcb-root.crt", false, 0, def, rotChoices[4])
+		// --keep_going on every command: default rotation, then a colliding override that keeps the
+		// existing object
+		add("memkm", "mock", "certs", "", true, 2, kgChoices[0], kgChoices[1])
 		return hs
 	}
 	// thorough: r <= 3, every sequence of rotation flag variations, both storage clients,
@@ -521,13 +759,31 @@ func histories() []*history {
 			for a := range rotChoices {
 				for b := range rotChoices {
 					for c := range rotChoices {
-						add("memkm", store, certDir, "", []rotChoice{rotChoices[a], rotChoices[b], rotChoices[c]})
+						fl := 0
+						if a == 0 && b == 0 && c == 0 {
+							fl = 2
+						}
+						add("memkm", store, certDir, "", false, fl, rotChoices[a], rotChoices[b], rotChoices[c])
 					}
 				}
 			}
 		}
-		add("localkm", store, "certs", "GCE-cc-tcb-root.crt", []rotChoice{def, rotChoices[1], def})
-		add("localkm", store, "certs", "", []rotChoice{rotChoices[3], def, rotChoices[2]})
+		add("localkm", store, "certs", "GCE-cc-tcb-root.crt", false, 2, def, rotChoices[1], def)
+		add("localkm", store, "certs", "", false, 0, rotChoices[3], def, rotChoices[2])
+		// every sequence of --keep_going variations, bootstrap with and without it
+		for _, kgBoot := range []bool{false, true} {
+			for a := range kgChoices {
+				for b := range kgChoices {
+					for c := range kgChoices {
+						fl := 0
+						if kgBoot && a == 0 && b == 1 && c == 0 {
+							fl = 2
+						}
+						add("memkm", store, "certs", "", kgBoot, fl, kgChoices[a], kgChoices[b], kgChoices[c])
+					}
+				}
+			}
+		}
 	}
 	return hs
 }
@@ -541,11 +797,23 @@ func shardInfo() (int, int) {
 	return i, n
 }
 
-const ruleCommon = "Oracle on a FRESH gcsca.CertificateAuthority over a fresh storage client holding exactly that content: (a) the manifest parses; (b) every manifest entry's object exists, x509.ParseCertificate accepts it and Certificate(keyVersion) succeeds; if a primary signing key is recorded: (c) it has an entry, the root PEM at root_path parses and its key verifies the primary's certificate signature, (d) the localca.checkCerts start-up check passes (primary root recorded, IssuerCertFromBundle and Certificate(primary) succeed; on the local-disk client additionally the real localca.T.InitContext); (e) ordering clause on the log itself: the manifest write is the last element of every operation's log. non-trivial = proper prefix 0<k<|W|; distinct = (history, operation, upload order, k, object names)"
+const ruleHistories = "histories bootstrap(empty store); rotate^r run with rotate.Bootstrap / rotate.Key, memkm|localkm + nonprod signer + gcsca over the package's recording storagei.Client (wrapping testing/storage.Mock or storage/local on a temp dir), one fresh set of components per operation like successive command invocations. quick: r=2 (its prefixes are r=0,1): default flags on both storage clients; localkm/mock with another common name and a colliding serial override with --overwrite (replaces a listed non-primary object); memkm/local with a colliding override with --overwrite that replaces the CURRENT primary's object, then an explicit fresh serial; localkm/local with a refused colliding override; one history with --keep_going on every command (default rotation, then a colliding override that keeps the existing object). thorough: r=3, EVERY sequence over rotation flag variations {default-next serial, other common name, explicit serial override, override colliding with an existing certificate object with --overwrite, same without --overwrite (refused)}, cert_dir in {certs, signer_certs/, empty}, both storage clients, localkm histories with another root_path, and EVERY sequence over {default+keep_going, colliding+keep_going, colliding+overwrite+keep_going, default} after a bootstrap with and without --keep_going. "
+
+const ruleCommon = "For each operation: log W of completed object writes and the REAL content of the base store after each of them (files of the local-disk client's directory / cells of the in-memory client); the next operation starts from the real content. Completion orders: every permutation inside every CONTIGUOUS run of certificate uploads (Finalize ranges over a Go map), root and manifest writes keep their observed positions; x EVERY prefix W[:k]; store = content before the operation + prefix (the observed order uses the real content). Oracle on a FRESH gcsca.CertificateAuthority over a fresh storage client holding exactly that content: (a) the authority reads its manifest; (b) every manifest entry's object exists, x509.ParseCertificate accepts it and Certificate(keyVersion) succeeds (entries enumerated by an independent text-proto reader; if that reader disagrees with the authority the clause is inconclusive); if a primary signing key is recorded: (c) it has a certificate, the root PEM at root_path parses and its key verifies the primary's certificate signature, (d) the repository's real start-up check localca.T.InitContext accepts a local-disk store holding that content; (e) ordering clause on the observed log as the statement words it: when a manifest write completes, the objects of all its entries and, if it records a primary signing key, the root certificate object are stored (writes after the manifest and several manifest writes are allowed). non-trivial = proper prefix 0<k<|W| whose state has manifest entries (clauses b-d judge something); distinct = (history, operation, upload order, k, object names)"
+
+// noteOutcome records unexpected but legal behaviour of a fault-free operation instead of failing.
+func noteOutcome(name string, h *history, j int, r opResult) {
+	o := h.Ops[j]
+	refusable := o.Kind == "rotate" && !o.Overwrite && !o.KeepGoing && o.Rot.Serial != 0
+	if r.err != nil && !(refusable && strings.Contains(r.err.Error(), "exists")) {
+		ev.Class(name, "inconclusive: fault-free "+o.Kind+" failed")
+		ev.Note("C11 %s: fault-free operation %d (%s) of %s failed: %v", name, j, o.Tag, h, r.err)
+	}
+}
 
 func TestCrashPrefixes(t *testing.T) {
 	const name = "crash/prefixes"
-	ev.Rule(name, "histories bootstrap(empty store); rotate^r run with rotate.Bootstrap / rotate.Key, memkm|localkm + nonprod signer + gcsca over a recording storagei.Client (wrapping testing/storage.Mock or storage/local on a temp dir), one fresh set of components per operation like successive command invocations. quick: r=2 (its prefixes are r=0,1), default flags, both storage clients, plus one localkm history with another common name and a colliding serial override with --overwrite. thorough: r=3, EVERY sequence over rotation flag variations {default-next serial, other common name, explicit serial override, override colliding with an existing certificate object with --overwrite, same without --overwrite (refused)}, cert_dir in {certs, signer_certs/, empty}, both storage clients, plus localkm histories with another root_path. For each operation: write log W of completed object writes (bootstrap 4: two certificate uploads, root PEM, manifest; rotation 2); EVERY permutation of the certificate uploads inside W (root and manifest writes keep their observed positions: their order relative to the uploads is fixed by the code) x EVERY prefix W[:k]; store = bucket before the operation + prefix. "+ruleCommon)
+	ev.Rule(name, ruleHistories+ruleCommon)
 	var replay history
 	if ev.ReplayCase("TestCrashPrefixes", &replay) {
 		if v, _ := runHistory(name, &replay); v != nil {
@@ -566,28 +834,49 @@ func TestCrashPrefixes(t *testing.T) {
 			}
 			return
 		}
-		// harness sanity: the fault-free default operations do write what the design says
 		for j, r := range res {
-			if r.err == nil && h.Ops[j].Kind == "bootstrap" && len(r.ws) != 4 {
-				t.Fatalf("harness: bootstrap made %d writes, expected 4: %s", len(r.ws), logString(h, r.ws))
-			}
-			if r.err == nil && h.Ops[j].Kind == "rotate" && len(r.ws) != 2 {
-				t.Fatalf("harness: successful rotation made %d writes, expected 2: %s", len(r.ws), logString(h, r.ws))
-			}
-			if r.err != nil && !(h.Ops[j].Kind == "rotate" && !h.Ops[j].Overwrite && strings.Contains(r.err.Error(), "exists")) {
-				t.Fatalf("harness: fault-free operation %d (%s) of %s failed: %v", j, h.Ops[j].Tag, h, r.err)
-			}
+			noteOutcome(name, h, j, r)
 		}
 	}
 	ev.Exhaustive(name)
 }
 
-func TestWriteErrorThenContinue(t *testing.T) {
-	const name = "write-error/continue"
-	ev.Rule(name, "same histories; additionally for EVERY operation j and EVERY write index k of its fault-free log: operation j is run with its k-th object write failing (error from the writer's Close, object not written), it returns its error, and the SAME authority instance (in-memory manifest cache retained, as in a process that goes on after the error) performs the next operation of the history with an explicit fresh serial number and --overwrite; the bucket left by the failed operation and every upload order x prefix of the continuing operation's writes are judged. This is what makes 'manifest entries are appended only together with the corresponding upload' observable: a crash discards the cache, an error does not. "+ruleCommon)
+// faultsOf enumerates the faults injected into one operation, given its fault-free run.
+func faultsOf(h *history, r opResult) []fault {
+	var fs []fault
+	kinds := []string{fCloseAbsent}
+	switch {
+	case h.Faults >= 2 && ev.Tier() == "thorough":
+		kinds = writeFaultKinds
+	case h.Faults >= 2:
+		// a short Write reports both a short count and an error; the bare failing Write (error only)
+		// is left to the thorough tier
+		kinds = []string{fCloseAbsent, fCloseCommitted, fShortWrite, fOpenError}
+	case h.Faults == 1:
+		kinds = []string{fCloseAbsent, fCloseCommitted}
+	}
+	for _, k := range kinds {
+		for i := 0; i < r.attempts; i++ {
+			fs = append(fs, fault{Kind: k, Index: i})
+		}
+	}
+	if h.Faults >= 2 {
+		for i := 0; i < r.exists; i++ {
+			fs = append(fs, fault{Kind: fExistsError, Index: i})
+		}
+		for i := 0; i < r.readers; i++ {
+			fs = append(fs, fault{Kind: fReaderError, Index: i})
+		}
+	}
+	return fs
+}
+
+func TestFaultThenContinue(t *testing.T) {
+	const name = "fault/continue"
+	ev.Rule(name, "same histories; additionally for EVERY operation j and EVERY storage call of its fault-free run one fault is injected: for every object write a failing Close that leaves no object; in the histories with faults>=1 (quick: default flags on the local-disk client) also a failing Close AFTER the object was committed; with faults=2 (quick: default flags on the in-memory client and the --keep_going history) also a short Write (short count and error; the writer is poisoned and creates nothing, as a GCS writer), a failing Writer open, an error from every Exists and every Reader call, and in the thorough tier a failing Write (error only). Operation j returns whatever it returns; what it left behind is judged; then the SAME authority instance (in-memory manifest cache retained, as in a process that goes on after the error) performs a rotation with an explicit fresh serial number and --overwrite, and every upload order x prefix of its writes is judged. This is what makes 'manifest entries are appended only together with the corresponding upload' observable: a crash discards the cache, an error does not. "+ruleCommon)
 	var replay history
-	if ev.ReplayCase("TestWriteErrorThenContinue", &replay) {
-		if v := runWriteError(name, &replay); v != nil {
+	if ev.ReplayCase("TestFaultThenContinue", &replay) {
+		if v := runFault(name, &replay, nil); v != nil {
 			ev.Violation(t, v.Key, "%s", v.Msg)
 		}
 		return
@@ -595,12 +884,13 @@ func TestWriteErrorThenContinue(t *testing.T) {
 	shard, nshards := shardInfo()
 	hs := histories()
 	if ev.Tier() == "thorough" {
-		// the sequences of flag variations do not matter here; keep one history per component choice
+		// the sequences of flag variations matter little here; keep the histories with extra fault kinds and one
+		// history per component choice
 		var keep []*history
 		seen := map[string]bool{}
 		for _, h := range hs {
 			k := h.KM + h.Store + h.CertDir + h.RootPath
-			if !seen[k] {
+			if h.Faults > 0 || !seen[k] {
 				seen[k] = true
 				keep = append(keep, h)
 			}
@@ -611,26 +901,92 @@ func TestWriteErrorThenContinue(t *testing.T) {
 	for _, h := range hs {
 		// fault-free logs (no evidence recorded under this name for them)
 		_, res := runHistory("", h)
-		for j := range h.Ops {
-			if j >= len(res) {
-				break
-			}
-			for k := range res[j].ws {
+		for j := range res {
+			for _, f := range faultsOf(h, res[j]) {
 				idx++
 				if idx%nshards != shard {
 					continue
 				}
 				fh := *h
 				fh.Ops = append([]opSpec(nil), h.Ops[:j+1]...)
-				fh.FailOp, fh.FailWrite = j, k
+				fh.FailOp, fh.Fault = j, f
 				// the continuing operation: a rotation with a serial nobody used yet
 				fh.Ops = append(fh.Ops, opSpec{Kind: "rotate", Rot: rotsim.RotateParams{Serial: int64(100 + j)}, Overwrite: true, Tag: fmt.Sprintf("rotate serial=%d+overwrite", 100+j)})
-				if v := runWriteError(name, &fh); v != nil {
-					ev.SaveReplay("C11", "TestWriteErrorThenContinue", &fh)
+				if v := runFault(name, &fh, res[j].before); v != nil {
+					ev.SaveReplay("C11", "TestFaultThenContinue", &fh)
 					if ev.Violation(t, v.Key, "%s", v.Msg) {
 						continue
 					}
 					return
+				}
+			}
+		}
+	}
+	ev.Exhaustive(name)
+}
+
+func TestCrashThenRecover(t *testing.T) {
+	const name = "crash/recover"
+	ev.Rule(name, "same histories; for EVERY operation j and EVERY crash point k in 0..|W_j| the operation is really run until the process dies right after its k-th completed object write (k=0: when it is about to start its first write; the storage wrapper panics and refuses every later call), so that the key manager's state is the one of that moment too. What the dead process left behind (keys and REAL store content) is judged, then a FRESH process over it performs the recovery rotation an operator would try: `rotate` with the default next serial, without and with --overwrite (quick: with --overwrite only where the dead process left an orphan object, i.e. 0<k<|W| of a rotation; bootstrap crash points before the manifest write, after which every recovery rotation is refused without a write, only for the default histories). Whether the recovery succeeds or is refused is not judged; every upload order x prefix of ITS writes is (a rotation after an interrupted one is still 'a later rotation' of the statement). "+ruleCommon)
+	var replay history
+	if ev.ReplayCase("TestCrashThenRecover", &replay) {
+		if v := runFault(name, &replay, nil); v != nil {
+			ev.Violation(t, v.Key, "%s", v.Msg)
+		}
+		return
+	}
+	shard, nshards := shardInfo()
+	hs := histories()
+	if ev.Tier() == "thorough" {
+		// one history in eight (the recovery doubles every crash point)
+		var keep []*history
+		for i, h := range hs {
+			if i%8 == 0 || h.Faults > 0 {
+				keep = append(keep, h)
+			}
+		}
+		hs = keep
+	}
+	idx := 0
+	for _, h := range hs {
+		_, res := runHistory("", h)
+		for j := range res {
+			for k := 0; k <= len(res[j].ws); k++ {
+				if len(res[j].ws) == 0 {
+					break // no object write, no crash point in the store's write sequence
+				}
+				for _, ow := range []bool{false, true} {
+					// A bootstrap that died before its manifest write leaves no manifest: the recovery
+					// rotation is refused without a write whatever its flags. Quick keeps those crash
+					// points for the default histories, once.
+					if ev.Tier() != "thorough" && h.Ops[j].Kind == "bootstrap" && k < len(res[j].ws) && (ow || h.Faults == 0) {
+						continue
+					}
+					// A rotation that died before its first or after its last write leaves no orphan
+					// object: --overwrite makes no difference to the recovery. Quick tries it only for the
+					// crash points in between.
+					if ev.Tier() != "thorough" && h.Ops[j].Kind == "rotate" && ow && (k == 0 || k == len(res[j].ws)) {
+						continue
+					}
+					idx++
+					if idx%nshards != shard {
+						continue
+					}
+					fh := *h
+					fh.Ops = append([]opSpec(nil), h.Ops[:j+1]...)
+					fh.FailOp, fh.Fault = j, fault{Kind: fCrash, Index: k}
+					rec := opSpec{Kind: "rotate", Overwrite: ow, Tag: "rotate default (recovery)"}
+					if ow {
+						rec.Tag = "rotate default+overwrite (recovery)"
+					}
+					fh.Ops = append(fh.Ops, rec)
+					if v := runFault(name, &fh, res[j].before); v != nil {
+						ev.SaveReplay("C11", "TestCrashThenRecover", &fh)
+						if ev.Violation(t, v.Key, "%s", v.Msg) {
+							continue
+						}
+						return
+					}
 				}
 			}
 		}
